@@ -1,5 +1,7 @@
 import GeomV.C03.Tie
 import GeomV.C03.JudgeOp
+import GeomV.C03.ModelGC
+import GeomV.C03.SpecGC
 /-!
 Driver for C03: `geomv_c03 judge` reads `<input> => <implementation answer>` lines and prints one
 verdict per line (`OK <class>` | `DIFF <class> <why>` | `SPEC <class> <why>`).
@@ -400,6 +402,62 @@ def judgeBnd (mn mx : Pt UInt64) (rhs : Tok) : String :=
     else "OK bounds"
   | _, _, _ => s!"SPEC bounds {" ".intercalate rhs}"
 
+/-! `opgc` lines: `op.Area` and `op.Length` on an arbitrary geometry (nested collections) -/
+
+mutual
+def ratGeom : BGeom → Option (Geom Rat)
+  | .point p => do let q ← ratPt p; pure (.point q)
+  | .multiPoint ps => do let q ← ratRing ps; pure (.multiPoint q)
+  | .lineString ps => do let q ← ratRing ps; pure (.lineString q)
+  | .multiLineString ls => do let q ← ratPoly ls; pure (.multiLineString q)
+  | .polygon ls => do let q ← ratPoly ls; pure (.polygon q)
+  | .multiPolygon ps => do let q ← ratMPoly ps; pure (.multiPolygon q)
+  | .collection gs => do let q ← ratGeomL gs; pure (.collection q)
+  | .bounds a b => do let x ← ratPt a; let y ← ratPt b; pure (.bounds x y)
+  | .nil => some .nil
+def ratGeomL : List BGeom → Option (List (Geom Rat))
+  | [] => some []
+  | g :: gs => do let q ← ratGeom g; let r ← ratGeomL gs; pure (q :: r)
+end
+
+/-- `opgc <tag> <geometry> => <op.Area> <op.Length>`.  SPEC: `op.Length` = the sum of the segment lengths of
+all line strings in the geometry (exact rational bounds); `op.Area` = the sum of shells minus holes of all
+polygons in it when each is valid, wound alternately (the assumption `op.Area` documents) and `HolesFit`.
+DIFF: against `opAreaGeom` (exact) / `opLengthGeom` (Float instance). -/
+def judgeGC (tag : String) (g : BGeom) (rhs : Tok) : String :=
+  let lines := SpecGC.lineLeaves g
+  let nl := lines.length
+  match ratGeom g, rhs.map parseU64, lines.mapM ratRing with
+  | some rg, [some a, some l], some rl =>
+    let polys := SpecGC.polyLeaves rg
+    let cs := polys.map fun p =>
+      let order := orderOf (Spec.canon ((scaleInt [p]).headD []))
+      (order.isSome, reorder (shellAt order) (Spec.canon p))
+    let valid := cs.all fun c => c.1 && Spec.Alternating c.2 && Spec.HolesFit c.2
+    let cls := s!"opgc-{tag}-{if valid then "valid" else "invalid"}-d{min (Geom.depth g) 9}-p{min polys.length 9}-l{min nl 9}"
+    let il := Float.ofBits l
+    let (lo, hi) := rl.foldl (fun (acc : Rat × Rat) l => let b := Spec.lengthBounds l; (acc.1 + b.1, acc.2 + b.2)) (0, 0)
+    let okB (x : Float) : Bool := match ratOfFloat x with
+      | some q => decide (lo * (1 - eps) ≤ q) && decide (q ≤ hi * (1 + eps))
+      | none => false
+    let ml : Float := opLengthGeom (Geom.map Float.ofBits g)
+    match fvOfBits a with
+    | .fin ia =>
+      let exact := tag.startsWith "g"
+      let scale := Spec.sumR (polys.flatten.map Spec.measure)
+      let agree (x y : Rat) : Bool := if exact then x == y else close x y scale
+      let want := Spec.sumR (cs.map fun c => Spec.area c.2)
+      let ma := opAreaGeom rg
+      if !okB il then s!"SPEC {cls} op.Length={il} outside [{lo.floor},{hi.ceil}]-ish exact bounds of the sum of segment lengths of the line strings in the geometry"
+      else if valid && !agree ia want then s!"SPEC {cls} op.Area={ia} but sum of shells-minus-holes of the polygons in the geometry={want}"
+      else if !agree ia ma then s!"DIFF {cls} op.Area impl={ia} model={ma}"
+      else if !fclose il ml 0 then s!"DIFF {cls} op.Length impl={il} model={ml}"
+      else s!"OK {cls}"
+    | _ => if valid then s!"SPEC {cls} non-finite-area {rhs}" else s!"DIFF {cls} non-finite-area {rhs}"
+  | none, _, _ => "OK opgc-skipped"
+  | _, _, _ => s!"SPEC opgc-{tag} {" ".intercalate rhs}"
+
+
 def judgeToks (toks : Tok) : String :=
   let (lhs, rhs) := splitArrow toks
   let mods := rhs.filter (·.startsWith "modified:")
@@ -445,6 +503,10 @@ def judgeToks (toks : Tok) : String :=
         | some r, some n => judgeBuf c r n rhs
         | _, _ => "BAD parse"
       | _ => "BAD parse"
+    | "opgc" =>
+      match Proto.pGeom 6 rest with
+      | some (g, _) => judgeGC tag g rhs
+      | none => "BAD parse"
     | "bnd" =>
       match Proto.pGeom 2 rest with
       | some (.bounds a b, _) => judgeBnd a b rhs
